@@ -11,6 +11,20 @@ COMMON_NOTE = ('Trusted: Lean 4.33 kernel with axioms propext/Classical.choice/Q
                'every invocation; harness generators, canonicalisation and monitors; ')
 
 CHECKS = {
+    'C19': dict(
+        text='Proved: every model parser is a total Lean function; for the loops whose trip count is driven by on-disk values - the '
+             'RomFS metadata walk (never more entries than the tables can hold, so cyclic / self-referential links end in '
+             'RomFSEntryError), the backward LZSS decoder (at most ptr_in - comp_start control bytes: the model\'s fuel is never what '
+             'stops it) and the seed-database loader (never more entries than the file holds) - explicit bounds in the input '
+             'length.  Measured for all 15 reader entry points: construction + full traversal of retargeted valid files, '
+             'truncations and random byte strings under a line-event budget linear in the input length (sys.monitoring on pyctr '
+             'code), an address-space cap and a 25 s alarm; a budget overrun, MemoryError or hang is a violation with the '
+             'input as replay.',
+        note=COMMON_NOTE + 'PARTIAL: for NCCH/CIA/CCI/TMD/SMDH/NAND/DISA/DIFF/config save the bound is the measured budget, not a '
+             'theorem; wall-clock and memory are runtime facts; a constant bound from a fixed-width field is not accepted as '
+             '"depending only on the input size" (the budget is linear).',
+        technique='Lean 4 proof (termination / cost bounds of the value-driven loops) + budgeted execution of the implementation',
+        design='§4 C19'),
     'C20': dict(
         text='Theorems: TitleVersion and ContentTypeFlags words (all 65536 words, exhaustive in the kernel); SMDH flag and region '
              'words (all flag subsets, the region-free constant, ignored bits); SMDH application title value->bytes->value and '
